@@ -10,9 +10,10 @@ Every statement is about the BYTES the model emits, read back through a reader m
 of read-fonts computes (`SubsetCpal.color` = `color_records_array()[color_record_indices()[p] + e]` …).
 -/
 import FontVerif.Lemmas.SubsetCpal
+import FontVerif.Lemmas.SubsetColr
 set_option linter.unusedVariables false
 namespace FontVerif.C17Colr
-open FontVerif FontVerif.ColrSer FontVerif.SubsetCpal
+open FontVerif FontVerif.ColrSer FontVerif.SubsetCpal FontVerif.SubsetColr
 open FontVerif.SubsetHvar (Err R)
 
 /-! ## CPAL -/
@@ -26,7 +27,7 @@ new index `e' = colr_palettes[e]` has, in EVERY palette `p`, the colour record i
 theorem cpal_colors_preserved (b out : List Nat) (keys : List Nat)
     (hb : ∀ x ∈ b, x < 256) (hs : keys.Pairwise (· < ·)) (hk : ∀ k ∈ keys, k < 65536)
     (hok : subsetCpal b (remapPaletteIndices keys) = .ok out)
-    (hd : Header) (hhd : readHeader b = some hd) (hv : hd.version ≤ 1)
+    (hd : SubsetCpal.Header) (hhd : SubsetCpal.readHeader b = some hd) (hv : hd.version ≤ 1)
     (p e e' : Nat) (hp : p < hd.numPalettes) (he : e < hd.numEntries) (hne : e ≠ 0xFFFF)
     (hmap : (remapPaletteIndices keys).lookup e = some e') :
     color out p e' = color b p e := by
@@ -43,8 +44,8 @@ entries, same version -/
 theorem cpal_header_preserved (b out : List Nat) (keys : List Nat)
     (hb : ∀ x ∈ b, x < 256) (hs : keys.Pairwise (· < ·)) (hk : ∀ k ∈ keys, k < 65536)
     (hok : subsetCpal b (remapPaletteIndices keys) = .ok out)
-    (hd : Header) (hhd : readHeader b = some hd) (hv : hd.version ≤ 1) :
-    ∃ hd', readHeader out = some hd' ∧ hd'.version = hd.version ∧ hd'.numPalettes = hd.numPalettes ∧
+    (hd : SubsetCpal.Header) (hhd : SubsetCpal.readHeader b = some hd) (hv : hd.version ≤ 1) :
+    ∃ hd', SubsetCpal.readHeader out = some hd' ∧ hd'.version = hd.version ∧ hd'.numPalettes = hd.numPalettes ∧
       hd'.numEntries = (keys.filter (· ≠ 0xFFFF)).length := by
   have hN : (retainedOf (remapPaletteIndices keys)).length < 65536 := by
     rw [retainedOf_remap]; exact retained_length_lt keys hs hk
@@ -64,7 +65,7 @@ omitted; otherwise it is never omitted for that reason. -/
 theorem cpal_dropped_when_no_entries (b : List Nat) (palettes : List (Nat × Nat))
     (h : retainedOf palettes = []) : subsetCpal b palettes = .error Err.dropped := by
   unfold subsetCpal cpalObjects
-  cases hr : readHeader b with
+  cases hr : SubsetCpal.readHeader b with
   | none => rfl
   | some hd =>
     simp only []
@@ -83,5 +84,168 @@ example : (subsetCpal exCpal (remapPaletteIndices [0, 2, 0xFFFF])).toOption =
           1,2,3,255, 7,8,9,255, 11,12,13,255, 17,18,19,255] := by decide
 example : color exCpal 1 2 = some [17,18,19,255] := by decide
 example : (remapPaletteIndices [0, 2, 0xFFFF]).lookup 2 = some 1 := by decide
+
+/-! ## COLR version 1: the paint graph
+
+`colrObjects b p` is `Colr::subset` up to `end_serialize`: the serializer's packed objects and the root
+object (the COLR header); `subsetColr = colrObjects >>= layout`.  `objTree packed fuel i` unfolds the
+object graph from object `i` along its links, `expectTree p b fuel off` walks the SOURCE table from the
+paint at `off` and renames every node through the plan (`renameNode`: glyph ids by `glyph_map`, palette
+indices by `colr_palettes`, `firstLayerIndex` by `colrv1_layers`, `VarIdxBase` by `colr_varidx_delta_map`;
+colour lines and affines likewise); offsets are masked in both.  Both views are tied to read-fonts by the
+harness (`colr-tree-reader`: reader model = read-fonts on the original; `colr-tree-expect`: `expectTree` on
+the original = read-fonts on the REAL subset table).
+-/
+
+/-- **The paint graph of every kept COLRv1 glyph is preserved** (all 32 paint formats, shared sub-paints,
+any nesting).  Whenever `Colr::subset` succeeds on a table whose BaseGlyphList (records `bglRecs`, at
+`bglOff`) has a glyph in `glyphset_colred`:
+the header's BaseGlyphList offset (position 14) leads to an object `ob` that holds exactly the kept records
+in source order — glyph id through `glyph_map`, paint offset to be resolved — and for EVERY kept record `k`
+(source glyph `g`, source paint at `bglOff + o`) the link of record `k` leads to an object `i` whose
+unfolding is the source paint graph of `g` renamed through the plan.  (`glyph_map[g]` exists.) -/
+theorem colr_paint_graph_preserved (b : Array Nat) (p : PlanIn) (packed : List Obj) (root : Obj)
+    (h : colrObjects b p = .ok (packed, root))
+    (hd : SubsetColr.Header) (hhd : SubsetColr.readHeader b = some hd)
+    (bglOff lOff cOff mOff sOff : Nat) (hv1 : hd.v1 = some (bglOff, lOff, cOff, mOff, sOff))
+    (bglRecs : List (Nat × Nat)) (hoff : bglOff ≠ 0) (hrecs : baseGlyphPaintRecords b bglOff = some bglRecs)
+    (hkeep : (bglRecs.any fun r => p.colred.contains r.1) = true) :
+    ∃ ib ob, linkAt root.links 14 = some ib ∧ packed[ib]? = some ob ∧
+      ob.bytes = beBytes 4 ((keptRecs p bglRecs).length % 4294967296) ++
+        (keptRecs p bglRecs).flatMap (fun r => beBytes 2 ((p.glyphMap.lookup r.1).getD 0) ++ [0, 0, 0, 0]) ∧
+      ∀ k (hk : k < (keptRecs p bglRecs).length),
+        (p.glyphMap.lookup (keptRecs p bglRecs)[k].1).isSome ∧
+        ∃ i, linkAt ob.links (6 + k * 6) = some i ∧ i < packed.length ∧
+          objTree packed (paintFuel b) i =
+            expectTree p b (paintFuel b) (bglOff + (keptRecs p bglRecs)[k].2) := by
+  obtain ⟨⟨ib, ob, h1, h2, h3, h4⟩, _⟩ :=
+    colrObjects_v1 b p packed root h hd hhd bglOff lOff cOff mOff sOff hv1 bglRecs hoff hrecs hkeep
+  refine ⟨ib, ob, h1, h2, h3, ?_⟩
+  intro k hk
+  obtain ⟨a, i, c, d⟩ := h4 k hk
+  exact ⟨a, i, c, d.1, d.2⟩
+
+/-- **The retained layers of the LayerList are preserved and re-indexed consistently.**  When layers are
+retained (`colrv1_layers` not empty) the header's LayerList offset (position 18) leads to an object with
+`numLayers = |colrv1_layers|` and one offset per retained source layer, in ascending source order — so the
+`k`-th retained layer gets the new index `k`, which is what `remap_indices` puts into `colrv1_layers` and
+`PaintColrLayers::subset` writes into `firstLayerIndex` — and the paint behind it unfolds to the renamed
+source paint graph of that layer. -/
+theorem colr_layer_graphs_preserved (b : Array Nat) (p : PlanIn) (packed : List Obj) (root : Obj)
+    (h : colrObjects b p = .ok (packed, root))
+    (hd : SubsetColr.Header) (hhd : SubsetColr.readHeader b = some hd)
+    (bglOff lOff cOff mOff sOff : Nat) (hv1 : hd.v1 = some (bglOff, lOff, cOff, mOff, sOff))
+    (bglRecs : List (Nat × Nat)) (hoff : bglOff ≠ 0) (hrecs : baseGlyphPaintRecords b bglOff = some bglRecs)
+    (hkeep : (bglRecs.any fun r => p.colred.contains r.1) = true)
+    (hl : lOff ≠ 0) (hne : p.layers ≠ []) :
+    ∃ n il ol, rd 4 b lOff = some n ∧ linkAt root.links 18 = some il ∧ packed[il]? = some ol ∧
+      ol.bytes = beBytes 4 (p.layers.length % 4294967296) ++
+        List.replicate (4 * (keptLayers p n).length) 0 ∧
+      ∀ k (hk : k < (keptLayers p n).length),
+        ∃ c i, resolveOff b 4 lOff (4 + 4 * (keptLayers p n)[k]) = some c ∧ paintOk b c = true ∧
+          linkAt ol.links (4 + k * 4) = some i ∧ i < packed.length ∧
+          objTree packed (paintFuel b) i = expectTree p b (paintFuel b) c := by
+  obtain ⟨_, hll⟩ :=
+    colrObjects_v1 b p packed root h hd hhd bglOff lOff cOff mOff sOff hv1 bglRecs hoff hrecs hkeep
+  obtain ⟨n, il, ol, h1, h2, h3, h4, h5⟩ := hll hl hne
+  refine ⟨n, il, ol, h1, h2, h3, h4, ?_⟩
+  intro k hk
+  obtain ⟨c, i, a, b', d, e⟩ := h5 k hk
+  exact ⟨c, i, a, b', d, e.1, e.2⟩
+
+/-- `remap_indices`: the `k`-th smallest retained layer index becomes `k` (so the LayerList order above IS
+the map `PaintColrLayers` uses) -/
+theorem remapIndices_rank (xs : List Nat) (k : Nat) (hk : k < xs.length) :
+    (remapIndices xs)[k]? = some (xs[k], k) := by
+  simp [remapIndices, hk]
+
+/-! ### what renaming a node means (two representative formats; `renameNode` is the definition for all) -/
+
+/-- PaintGlyph: the object is `[10, 0,0,0, glyph_map[gid]]` -/
+theorem rename_paint_glyph (p : PlanIn) (src bytes : List Nat) (h : renameNode p 10 src = .ok bytes) :
+    ∃ ng, p.glyphMap.lookup (beValue ((src.drop 4).take 2)) = some ng ∧ bytes = [10, 0, 0, 0] ++ beBytes 2 ng := by
+  unfold renameNode at h
+  simp only [Nat.reduceEqDiff, if_false, false_or, if_true] at h
+  split at h
+  · cases h
+  · rename_i ng hng
+    simp only [pure, Except.pure] at h
+    cases h
+    exact ⟨ng, hng, rfl⟩
+
+/-- PaintSolid: the palette index field is replaced by `colr_palettes[index]`, alpha is untouched -/
+theorem rename_paint_solid (p : PlanIn) (src bytes : List Nat) (h : renameNode p 2 src = .ok bytes) :
+    ∃ npal, p.palettes.lookup (beValue ((src.drop 1).take 2)) = some npal ∧
+      bytes = src.take 1 ++ beBytes 2 npal ++ src.drop 3 := by
+  unfold renameNode at h
+  simp only [Nat.reduceEqDiff, if_false, true_or, if_true] at h
+  split at h
+  · cases h
+  · rename_i npal hnpal
+    simp only [pure, Except.pure] at h
+    cases h
+    exact ⟨npal, hnpal, by simp [writeBE]⟩
+
+/-! ## COLR version 0 -/
+
+/-- **Version 0 records (structured part).**  For the base glyph records `kept` that `serialize_v0` retains
+(source record = glyph id, first layer index, layer count), the record array it writes (`rs`) and the layer
+array it writes (`lb`): record `k` carries the glyph id mapped through `glyph_map`, the same layer count,
+and first layer index = number of layers of the records before it; and its `j`-th layer is the source's
+`j`-th layer with glyph id mapped through `glyph_map` and palette index through `colr_palettes`.
+
+`_partial`: stated on the record lists the model encodes (`encodeRecs3 rs`, `encodeRecs2 lb`), not yet
+through a byte-level reader of the emitted table (binary search of `v0_base_glyph` on the output, which
+records `retainedRecords` selects): that part is covered by the byte-exact correspondence and the
+`colr-paint-events-preserved` oracle (format v0). -/
+theorem colr_v0_layers_preserved_partial (p : PlanIn) (layers : List (Nat × Nat))
+    (kept rs : List (Nat × Nat × Nat)) (t : Nat) (lb : List (Nat × Nat))
+    (h1 : baseRecordsGo p kept 0 = .ok (rs, t)) (h2 : layersGo p layers kept = .ok lb)
+    (k : Nat) (hk : k < kept.length) :
+    ∃ (hk' : k < rs.length),
+      p.glyphMap.lookup kept[k].1 = some rs[k].1 ∧ rs[k].2.2 = kept[k].2.2 ∧
+      rs[k].2.1 = layersBefore kept k ∧ t = lb.length ∧
+      ∀ j, j < kept[k].2.2 → ∃ g pi ng npi, layers[kept[k].2.1 + j]? = some (g, pi) ∧
+        p.glyphMap.lookup g = some ng ∧ p.palettes.lookup pi = some npi ∧
+        lb[rs[k].2.1 + j]? = some (ng, npi) := by
+  obtain ⟨hl, ht, hall⟩ := baseRecordsGo_spec p kept 0 rs t h1
+  have hk' : k < rs.length := by omega
+  obtain ⟨a, b', c⟩ := hall k hk hk'
+  obtain ⟨hlb, hranges⟩ := layersGo_spec p layers kept lb h2
+  obtain ⟨r, hr, hdt⟩ := hranges k hk
+  obtain ⟨hrl, hrall⟩ := layerRange_spec p layers _ _ r hr
+  refine ⟨hk', a, c, by rw [b']; simp, by rw [ht, hlb]; simp, ?_⟩
+  intro j hj
+  obtain ⟨g, pi, h3, h4, h5⟩ := hrall j hj (by omega)
+  refine ⟨g, pi, r[j].1, r[j].2, h3, h4, h5, ?_⟩
+  have hb2 : rs[k].2.1 = layersBefore kept k := by rw [b']; simp
+  rw [hb2]
+  have : (List.take kept[k].2.2 (List.drop (layersBefore kept k) lb))[j]? = some r[j] := by
+    rw [hdt, List.getElem?_eq_getElem (by omega)]
+  rw [List.getElem?_take_of_lt hj, List.getElem?_drop] at this
+  exact this
+
+/-! ### non-vacuity -/
+
+/-- COLR v1: one base glyph (gid 5) = PaintGlyph(gid 2, PaintSolid(palette 1)) -/
+def exColr : Array Nat :=
+  #[0,1, 0,0, 0,0,0,0, 0,0,0,0, 0,0, 0,0,0,34, 0,0,0,0, 0,0,0,0, 0,0,0,0, 0,0,0,0,
+    0,0,0,1, 0,5, 0,0,0,10,
+    10, 0,0,6, 0,2,
+    2, 0,1, 64,0]
+
+def exPlan : PlanIn :=
+  { colred := [0, 2, 5], glyphMap := [(0, 0), (2, 1), (5, 2)], palettes := [(1, 0)], layers := [],
+    varIdx := [], innerMaps := [], newDs := [] }
+
+set_option maxRecDepth 4000 in
+example : (subsetColr exColr exPlan).toOption =
+    some [0,1, 0,0, 0,0,0,0, 0,0,0,0, 0,0, 0,0,0,34, 0,0,0,0, 0,0,0,0, 0,0,0,0, 0,0,0,0,
+          0,0,0,1, 0,2, 0,0,0,10,
+          10, 0,0,6, 0,1,
+          2, 0,0, 64,0] := by decide
+
+set_option maxRecDepth 4000 in
+example : (colrObjects exColr exPlan).toOption.isSome = true := by decide
 
 end FontVerif.C17Colr
